@@ -72,13 +72,14 @@ theorem upd_upd {α : Type} (f : Nat → α) (i : Nat) (x y : α) : upd (upd f i
   funext k; simp only [upd]; split <;> rfl
 
 theorem jSwap_eq (s : St) (j : Nat) :
-    jSwap s j = (swapVersion (setPc s j .cLocked) (s.job j).newVer (s.job j).edit).setJob j
-      { s.job j with pc := .cSwapped } := by
-  simp only [jSwap, swapVersion, setPc, St.setJob, upd_upd]
+    jSwap s j = noteFlush ((swapVersion (setPc s j .cLocked) (s.job j).newVer (s.job j).edit).setJob j
+      { s.job j with pc := .cSwapped }) (if (s.job j).kind = .flush then outNo (s.job j) else []) := by
+  simp only [jSwap, noteFlush, swapVersion, setPc, St.setJob, upd_upd]
 
 theorem safe_jSwap {s : St} {j : Nat} (h : Safe s) (hj : j < s.nJob) (hpc : (s.job j).pc = .cSnapped) :
     Safe (jSwap s j) := by
   rw [jSwap_eq]
+  apply safe_noteFlush
   have hb0 := h.jobs j hj
   -- step back to the pc before the clone (no clause about the built version), install, then move on
   have h1 : Safe (setPc s j .cLocked) := by
